@@ -78,7 +78,7 @@ CLAIMED = {
             'DESIGN.md section 6, C19'),
     'C18': ('model_checking', 'TLC trace validation of Capture(S0); S1; Replay histories against TraceSnapshot.tla',
             'Random populations mixing plain, multizone (1..40 zones) and matrix (1x1..11x5) lights with hostile names and edge-value '
-            'states are captured by the real ScriptSnapshot (and by WebApp.snapshot for every 25th); the script is compiled and run by '
+            'states are captured by the capture command itself (snapshot.main() with argv `lscap -s`, its standard output being the script; WebApp.snapshot for every 25th, compared with ScriptSnapshot.generate); the script is compiled and run by '
             'the real pipeline against the same simulated lights in a different state; TLC decides light by light whether the captured '
             'colour/power/zones/cells were restored exactly, and that the script compiled and ran.',
             'Trusted: SimLan device state bookkeeping (zone message start <= z < end; tile message row-major).',
